@@ -32,5 +32,5 @@ def q(bits, vw, vh, to=900):
 def queries(tier):
     qs = [q(8, 10, 6), q(8, 10, 8), q(8, 16, 6), q(10, 10, 6)]
     if tier == "thorough":
-        qs += [q(8, 10, 8, 3000), q(8, 8, 6, 3000), q(8, 16, 10, 3000), q(10, 12, 6, 3000)]
+        qs += [q(8, 8, 6, 3000), q(8, 16, 10, 3000), q(10, 12, 6, 3000)]
     return qs
